@@ -641,3 +641,7 @@ mod tests {
         assert_eq!(server_secret, hex::encode(helper.server_hmac(&kvs)));
     }
 }
+
+#[cfg(kani)]
+#[path = "/verif/kani/inline/persist.rs"]
+mod verif_kani;
